@@ -51,6 +51,9 @@ pub enum Ev {
     /// let virtual time pass (the selection cache expires after 2 s)
     #[serde(rename = "sleep")]
     Sleep { ms: u64 },
+    /// `n` concurrent selections are in flight (queued at the selector) when the next event runs
+    #[serde(rename = "flood")]
+    Flood { n: u32, level: String },
 }
 
 #[derive(Serialize, Deserialize, Clone, Debug)]
@@ -373,7 +376,12 @@ impl Check for C15 {
         for _ in 0..rng.gen_range(3..=25) {
             match rng.gen_range(0..10) {
                 0..=5 => events.push(Ev::Get { level: LEVELS[rng.gen_range(0..8)].to_string() }),
-                6..=7 => events.push(Ev::Set { layout: gen_layout(&mut rng, local_dc, local_pos, max_dc, max_n) }),
+                6..=7 => {
+                    if rng.gen_bool(0.25) {
+                        events.push(Ev::Flood { n: rng.gen_range(90..260), level: LEVELS[rng.gen_range(0..8)].to_string() });
+                    }
+                    events.push(Ev::Set { layout: gen_layout(&mut rng, local_dc, local_pos, max_dc, max_n) })
+                },
                 _ => events.push(Ev::Sleep { ms: [100, 1900, 2100, 5000][rng.gen_range(0..4)] }),
             }
         }
@@ -406,7 +414,13 @@ impl Check for C15 {
             let mut layout = sc.initial.clone();
             nv::set_nodes(&handle, to_map(&layout)).await;
             let mut hist = format!("layout {:?}, local dc-{}#{}", layout, sc.local_dc, sc.local_pos);
+            let mut flood: Vec<tokio::task::JoinHandle<()>> = Vec::new();
             for ev in &sc.events {
+                if !matches!(ev, Ev::Flood { .. } | Ev::Set { .. }) {
+                    for f in flood.drain(..) {
+                        let _ = f.await;
+                    }
+                }
                 match ev {
                     Ev::Get { level } => {
                         let Some(l) = level_of(level) else {
@@ -447,6 +461,22 @@ impl Check for C15 {
                         sets += 1;
                         hist.push_str(&format!(" -> set({:?})", layout));
                         tr.u64(3);
+                    },
+                    Ev::Flood { n, level } => {
+                        let Some(l) = level_of(level) else {
+                            invalid = Some("bad level".into());
+                            return;
+                        };
+                        for _ in 0..*n {
+                            let h = handle.clone();
+                            flood.push(tokio::spawn(async move {
+                                let _ = h.get_nodes(l).await;
+                            }));
+                        }
+                        // let them queue up at the selector (which has not run yet)
+                        tokio::task::yield_now().await;
+                        out.fault_n("selections_in_flight_during_membership_update", *n as u64);
+                        hist.push_str(&format!(" -> {n} concurrent get({level}) in flight"));
                     },
                     Ev::Sleep { ms } => {
                         tokio::time::sleep(Duration::from_millis(*ms)).await;
